@@ -57,7 +57,8 @@ LAYOUTS = [
 
 def gen(ctx: common.Ctx, n_corpus: int, n_mut: int) -> Iterator[dict[str, Any]]:
     cases = corpus.load(["check-*.test", "parse*.test", "semanal-*.test", "pythoneval*.test"])
-    rng = common.rng_for("C14", "order")
+    import random
+    rng = random.Random("C14-core-order")   # core workload is seed-independent (listed parser divergences are per case)
     rng.shuffle(cases)
     pyvers = ["3.9", "3.10", "3.11", "3.12", "3.13", "3.14"]
     k = 0
@@ -71,7 +72,7 @@ def gen(ctx: common.Ctx, n_corpus: int, n_mut: int) -> Iterator[dict[str, Any]]:
         if any(corpus.has_type_comments(t) for t in files.values()):
             continue
         flags = [f for f in clean_flags(c.flags) if f not in ("--no-native-parser",)]
-        r = common.rng_for("C14", c.id)
+        r = random.Random("C14-core-" + c.id)
         if "--python-version" not in " ".join(flags) and r.random() < 0.4:
             flags += ["--python-version", r.choice(pyvers)]
         sent += 1
@@ -83,13 +84,24 @@ def gen(ctx: common.Ctx, n_corpus: int, n_mut: int) -> Iterator[dict[str, Any]]:
                    "_case": f"layout{i}@{pv}", "_kind": "layout"}
     pool_src = [c.main for c in cases[:600] if not corpus.has_type_comments(c.main)] + LAYOUTS * 5
     for j in range(n_mut):
-        r = common.rng_for("C14", "mut", j)
+        r = random.Random(f"C14-core-mut-{j}")
         src = r.choice(pool_src)
         m = mutators.mutate(src, r, n=1, ops=["corrupt_token"] if r.random() < 0.7 else None)
         if m is None or corpus.has_type_comments(m[0]):
             continue
         yield {"fn": "vlib.tasks.parsers:both", "args": {"files": {"main.py": m[0]}, "flags": ["--python-version", r.choice(pyvers)], "targets": ["main.py"]},
                "_case": f"mut{j}", "_kind": "mutant:" + m[1][0]}
+    # exploration slice (VERIF_SEED-dependent): generated typed programs and their perturbations
+    from vlib import typedgen
+    for j in range(max(10, n_mut // 12)):
+        src, _ = typedgen.generate(("C14x", ctx.seed, j), n_funcs=3 + j % 3)
+        r2 = common.rng_for("C14x", ctx.seed, j)
+        if r2.random() < 0.6:
+            m2 = typedgen.perturb(src, r2)
+            if m2:
+                src = m2[0]
+        yield {"fn": "vlib.tasks.parsers:both", "args": {"files": {"main.py": src}, "flags": ["--python-version", r2.choice(pyvers[3:])], "targets": ["main.py"]},
+               "_case": f"x:typedgen{j}", "_kind": "typedgen"}
 
 
 def norm_nonsyntax(out: str) -> list[str]:
@@ -175,7 +187,7 @@ def run(ctx: common.Ctx) -> None:
                         why = re.sub(r" ?\d+(\.\.\d+)?", "", b["why"]).replace(" ", "-")
                         if b["raw"].rstrip().endswith("[syntax]"):
                             why += ":syntax-error"
-                        ctx.violation(f"position-invalid:{side}:{why}", f"{b['why']}: {b['raw']}", {"task": t, "parser": side, "out": x["out"]})
+                        ctx.violation(f"position-invalid:{side}:{why}", f"{b['why']}: {b['raw']}", {"task": t, "parser": side, "out": x["out"]}, case=t["_case"])
                 dsyn, nsyn = d["status"] == 2, n["status"] == 2
                 if "you likely need to run mypy using Python" in d["out"] or (
                         dsyn and not nsyn and re.search(r"requires Python 3\.\d+ or newer", n["out"])):
@@ -188,15 +200,15 @@ def run(ctx: common.Ctx) -> None:
                     who = "default-only" if dsyn else "native-only"
                     msgs = [e["msg"] for e in diag.parse((d if dsyn else n)["out"]) if e["sev"] == "error"]
                     ctx.violation(f"blocking-rejection:{who}:{_norm_msg(msgs[0]) if msgs else '?'}", f"blocking error reported by {who}",
-                                  {"task": t, "default": d["out"], "native": n["out"]})
+                                  {"task": t, "default": d["out"], "native": n["out"]}, case=t["_case"])
                     continue
                 if dsyn and nsyn:
                     ctx.cell("rejected-by-both")
                     if {x[0] for x in d["syntax"]} != {x[0] for x in n["syntax"]}:
-                        ctx.violation("blocking-rejection:different-file", "rejected files differ", {"task": t, "default": d["out"], "native": n["out"]})
+                        ctx.violation("blocking-rejection:different-file", "rejected files differ", {"task": t, "default": d["out"], "native": n["out"]}, case=t["_case"])
                     continue
                 if d["status"] != n["status"]:
-                    ctx.violation(f"status:{d['status']}-vs-{n['status']}", "exit status differs", {"task": t, "default": d["out"], "native": n["out"]})
+                    ctx.violation(f"status:{d['status']}-vs-{n['status']}", "exit status differs", {"task": t, "default": d["out"], "native": n["out"]}, case=t["_case"])
                     continue
                 diffs = compare_levels(d["out"], n["out"], t["args"]["files"])
                 seen_k = set()
@@ -204,7 +216,7 @@ def run(ctx: common.Ctx) -> None:
                     if k in seen_k:
                         continue
                     seen_k.add(k)
-                    ctx.violation(k, "diagnostics differ between the parsers: " + detail, {"task": t, "default": d["out"], "native": n["out"]})
+                    ctx.violation(k, "diagnostics differ between the parsers: " + detail, {"task": t, "default": d["out"], "native": n["out"]}, case=t["_case"])
                 if diffs:
                     pass
                 elif d["out"].strip():
